@@ -153,7 +153,7 @@ def run(res, tier, seed):
             cls = "panic"
         elif ev.get("ev") == "get" and ev.get("res") == "pos" and exp.get("kind") == "pos":
             cls = "ttl-wrong" if ev.get("ttls") != exp.get("ttls") else "served-late"
-        elif ev.get("ev") == "get" and ev.get("res") == "pos" and exp.get("kind") == "chain":
+        elif ev.get("ev") == "get" and ev.get("res") == "pos" and exp.get("kind") in ("chain", "pchain"):
             late = (ev["t"] - exp["at"]) > exp["lifeHi"] * 2
             cls = "alias-chain-served-late" if late else "alias-chain-ttl-wrong"
         elif ev.get("ev") == "get" and ev.get("res") == "neg":
